@@ -293,6 +293,10 @@ func TestVerif_C15_Sim(t *testing.T) {
 	simExplore(t, r, simExploreCfg{Scenario: "softreset", Arg: "cfg=ea;npfx=1;nvar=2;src=0;pols=02;norr;noflap;noapi;nopeers", Depth: deep, Budget: budget})
 	// import policy "remove a community" against "accept all": a repeated reset must change nothing
 	simExplore(t, r, simExploreCfg{Scenario: "softreset", Arg: "cfg=ee;npfx=1;nvar=2;src=0;pols=06;norr;noflap;noapi;nopeers;importonly", Depth: deep, Budget: budget})
+	// three sources of one prefix (the first one's route carries the community the import policy rejects) and an
+	// ADD-PATH receiver with room for all of them: routes leave and re-enter the Loc-RIB through policy switches
+	// and soft resets while others arrive - every path keeps a path identifier of its own
+	simExplore(t, r, simExploreCfg{Scenario: "softreset", Arg: "cfg=eeeB;npfx=1;nvar=2;vmap=100;nowd;src=012;pols=02;norr;noflap;noapi;nopeers;importonly", Depth: deep + 2, Budget: budget})
 	// third sharp driver: export policy switched between "accept all" and "reject community", soft reset out
 	// and ROUTE-REFRESH from the receiver: what a refresh hands over must be remembered as sent
 	simExplore(t, r, simExploreCfg{Scenario: "softreset", Arg: "cfg=ee;npfx=1;nvar=2;src=0;pols=02;noflap;noapi;nopeers;exportonly", Depth: deep + 2, Budget: budget})
